@@ -683,7 +683,7 @@ func (n *ExtendsNode) Render(w io.Writer, ctx *RenderContext) error {
 	resolvedName := templateName
 	if strings.HasPrefix(templateName, "./") || strings.HasPrefix(templateName, "../") {
 		// Get the directory of the current template
-		currentTemplate := ctx.engine.currentTemplate
+		currentTemplate := ctx.templateName
 		if currentTemplate != "" {
 			// Extract the directory part of the current template
 			currentDir := filepath.Dir(currentTemplate)
@@ -714,6 +714,7 @@ func (n *ExtendsNode) Render(w io.Writer, ctx *RenderContext) error {
 	parentCtx := NewRenderContext(ctx.env, ctx.context, ctx.engine)
 	parentCtx.extending = true // Flag that the parent is being extended
 	parentCtx.sandboxed = ctx.sandboxed
+	parentCtx.templateName = ctx.templateName
 
 	// Pass along the parent template as lastLoadedTemplate for relative path resolution
 	parentCtx.lastLoadedTemplate = parentTemplate
@@ -794,7 +795,7 @@ func (n *IncludeNode) Render(w io.Writer, ctx *RenderContext) error {
 	resolvedName := templateName
 	if strings.HasPrefix(templateName, "./") || strings.HasPrefix(templateName, "../") {
 		// Get the directory of the current template
-		currentTemplate := ctx.engine.currentTemplate
+		currentTemplate := ctx.templateName
 		if currentTemplate != "" {
 			// Extract the directory part of the current template
 			currentDir := filepath.Dir(currentTemplate)
@@ -860,6 +861,7 @@ func (n *IncludeNode) Render(w io.Writer, ctx *RenderContext) error {
 		// Create a new context
 		includeCtx = NewRenderContext(ctx.env, contextVars, ctx.engine)
 		includeCtx.sandboxed = ctx.sandboxed
+		includeCtx.templateName = ctx.templateName
 		// Set the template as the lastLoadedTemplate for relative path resolutionn			includeCtx.lastLoadedTemplate = template
 		defer includeCtx.Release()
 
@@ -1133,6 +1135,7 @@ func (n *MacroNode) CallMacro(w io.Writer, ctx *RenderContext, args ...interface
 	macroCtx := NewRenderContext(ctx.env, nil, ctx.engine)
 	macroCtx.parent = ctx
 	macroCtx.sandboxed = ctx.sandboxed
+	macroCtx.templateName = ctx.templateName
 
 	// Ensure context is released even in error paths
 	defer macroCtx.Release()
@@ -1215,7 +1218,7 @@ func (n *ImportNode) Render(w io.Writer, ctx *RenderContext) error {
 	resolvedName := templateName
 	if strings.HasPrefix(templateName, "./") || strings.HasPrefix(templateName, "../") {
 		// Get the directory of the current template
-		currentTemplate := ctx.engine.currentTemplate
+		currentTemplate := ctx.templateName
 		if currentTemplate != "" {
 			// Extract the directory part of the current template
 			currentDir := filepath.Dir(currentTemplate)
@@ -1242,6 +1245,7 @@ func (n *ImportNode) Render(w io.Writer, ctx *RenderContext) error {
 	// Create a new context for the imported template
 	importCtx := NewRenderContext(ctx.env, nil, ctx.engine)
 	importCtx.sandboxed = ctx.sandboxed
+	importCtx.templateName = ctx.templateName
 	// Set the template as the lastLoadedTemplate for relative path resolutionn	importCtx.lastLoadedTemplate = template
 
 	// Ensure context is released even in error paths
@@ -1307,7 +1311,7 @@ func (n *FromImportNode) Render(w io.Writer, ctx *RenderContext) error {
 	resolvedName := templateName
 	if strings.HasPrefix(templateName, "./") || strings.HasPrefix(templateName, "../") {
 		// Get the directory of the current template
-		currentTemplate := ctx.engine.currentTemplate
+		currentTemplate := ctx.templateName
 		if currentTemplate != "" {
 			// Extract the directory part of the current template
 			currentDir := filepath.Dir(currentTemplate)
@@ -1334,6 +1338,7 @@ func (n *FromImportNode) Render(w io.Writer, ctx *RenderContext) error {
 	// Create a new context for the imported template
 	importCtx := NewRenderContext(ctx.env, nil, ctx.engine)
 	importCtx.sandboxed = ctx.sandboxed
+	importCtx.templateName = ctx.templateName
 	// Set the template as the lastLoadedTemplate for relative path resolutionn	importCtx.lastLoadedTemplate = template
 
 	// Ensure context is released even in error paths
